@@ -227,7 +227,14 @@ class LevelData:
         return self.get("rf", lambda: np.broadcast_to(np.asarray(self._jit(self.ga._is_index_refined, self.pidx)).astype(bool), (self.P,))[:self.N])
 
     def refined_indices(self):
-        return self.get("ri", lambda: np.asarray(self.ga.refined_indices()).reshape(self.nd, -1))
+        def f():
+            import jax
+            try:        # one compiled program instead of dozens of tiny eager ones (FlatGrid / MGrid build it with jnp loops)
+                r = jax.jit(lambda: self.ga.refined_indices())()
+            except Exception:
+                r = self.ga.refined_indices()      # SparseGrid selects with a boolean mask: not traceable
+            return np.asarray(r).reshape(self.nd, -1)
+        return self.get("ri", f)
 
     def coords_padded(self):
         return self.get("cop", lambda: np.asarray(self._jit(self.ga.index2coord, self.pidx), dtype=np.float64))
@@ -485,13 +492,14 @@ def oracle_amend(case):
             ga, gb = am.at(lvl), full.at(lvl)
             if [int(x) for x in ga.shape] != [int(x) for x in gb.shape]:
                 return (f"amend: level {lvl} has shape {list(ga.shape)}, the directly built grid {list(gb.shape)}", sig)
-        idx = np.asarray(full.at(d - 1).refined_indices()).reshape(int(full.at(d - 1).ndim), -1)
-        ca = np.asarray(am.at(d - 1).children(padded(idx)))
-        cb = np.asarray(full.at(d - 1).children(padded(idx)))
+        import jax
+        idx = np.asarray(jax.jit(lambda: full.at(d - 1).refined_indices())()).reshape(int(full.at(d - 1).ndim), -1)
+        ca = np.asarray(jax.jit(am.at(d - 1).children)(padded(idx)))
+        cb = np.asarray(jax.jit(full.at(d - 1).children)(padded(idx)))
         if not np.array_equal(ca, cb):
             return ("amend: children on the amended level differ from the directly built grid", sig)
         cidx = allidx(full.at(d).shape)
-        if not np.array_equal(np.asarray(am.at(d).parent(padded(cidx))), np.asarray(full.at(d).parent(padded(cidx)))):
+        if not np.array_equal(np.asarray(jax.jit(am.at(d).parent)(padded(cidx))), np.asarray(jax.jit(full.at(d).parent)(padded(cidx)))):
             return ("amend: parents on the new level differ from the directly built grid", sig)
     except Exception as e:
         return (f"amend raised {type(e).__name__}: {str(e)[:100]}", dict(sig, error=type(e).__name__))
@@ -664,12 +672,12 @@ _PHYS = [dict(kind="simpleopen", min_shape=[5, 4], depth=2, window=3, splits=2, 
          dict(kind="brokenlog", min_shape=[6], depth=1, window=3, splits=2, r_min=0.5, r_linthresh=2.0, r_max=20.0)]
 _MG = dict(kind="mgrid", grids=[_REG[2], dict(kind="regular", shape0=[2], splits=[[3], [1]])])
 # quick tier: every grid kind, 3 and 4 axes with unequal lengths, both flat orderings, an inner level (depth 3)
-FIXED_QUICK = [_REG[3], _REG[4], _OPEN[3], _OPEN[4]] + _DEEP + [
+FIXED_QUICK = [_REG[3], _REG[4], _OPEN[3]] + _DEEP + [
     dict(kind="hp", nside0=1, depth=1),
     dict(kind="mgrid", grids=[_REG[1], _OPEN[1]]),
     dict(kind="mgrid", grids=[dict(kind="regular", shape0=[2], splits=[[2]]), dict(kind="hp", nside0=1, depth=1),
                               dict(kind="regular", shape0=[1, 3], splits=[[3, 1]])]),
-    dict(kind="flat", ordering="serial", grid=_REG[3]), dict(kind="flat", ordering="serial", grid=_REG[4]),
+    dict(kind="flat", ordering="serial", grid=_REG[3]),
     dict(kind="flat", ordering="nest", grid=_REG[3]), dict(kind="flat", ordering="nest", grid=_REG[4]),
     dict(kind="flat", ordering="serial", grid=_OPEN[3]),
     dict(kind="flat", ordering="nest", grid=_DEEP[0]), dict(kind="flat", ordering="serial", grid=_DEEP[1]),
@@ -677,7 +685,8 @@ FIXED_QUICK = [_REG[3], _REG[4], _OPEN[3], _OPEN[4]] + _DEEP + [
     dict(kind="flat", ordering="serial", grid=_MG),
 ] + _PHYS
 # thorough tier: the complete families
-FIXED_MORE = [_REG[1], _REG[2], _OPEN[1], _OPEN[2], dict(kind="hp", nside0=1, depth=2)] + [
+FIXED_MORE = [_REG[1], _REG[2], _OPEN[1], _OPEN[2], _OPEN[4], dict(kind="hp", nside0=1, depth=2),
+              dict(kind="flat", ordering="serial", grid=_REG[4])] + [
     dict(kind="flat", ordering=o, grid=_REG[n]) for o in ("serial", "nest") for n in (1, 2)] + [
     dict(kind="flat", ordering="serial", grid=_OPEN[n]) for n in (2, 4)] + [dict(kind="flat", ordering="nest", grid=_MG)]
 FIXED = FIXED_QUICK
@@ -788,7 +797,7 @@ def check_levels(ctx, j, outs):
     r = oracle(dict(spec=spec, win=j.win), grid=j.grid)
     if r:
         ctx.counterexample(dict(spec=spec, win=j.win), *r)
-    if d >= 1 and spec["kind"] in ("regular", "open", "hp", "flat"):
+    if d >= 1 and spec["kind"] in ("regular", "open", "hp", "flat") and (not ctx.quick or ctx.dist["amend"] < 5):
         r = oracle_amend(dict(spec=spec))
         ctx.stat("amend")
         if r:
